@@ -414,10 +414,17 @@ pub fn deviations(img: &[u8], l: &Layout) -> Vec<Deviation> {
             }
         }
     }
+    // a stale cell may hold anything: a terminator, the free marker, a link into a live chain,
+    // or a link past the end of the FAT
+    let live = l.dir_sectors.get(1).copied().or_else(|| l.entries.iter().find(|e| e.reachable && e.obj_type == 2 && e.size >= 4096).map(|e| l.fat.get(e.start_sector as usize).copied().unwrap_or(ENDOFCHAIN)).filter(|v| *v < l.num_sectors));
+    let mut stale: Vec<u32> = vec![ENDOFCHAIN, FREESECT, l.num_sectors + 1000];
+    if let Some(v) = live {
+        stale.push(v);
+    }
     // 3. FAT sector not marked FATSECT
     for s in &l.fat_sectors {
         if let Some(off) = imgck::fat_cell_offset(l, *s) {
-            for v in [ENDOFCHAIN, FREESECT] {
+            for v in stale.iter().copied() {
                 out.push(dev("fat-sector-not-marked", format!("fat sector {} cell={:#x}", s, v), vec![(off, le32(v))]));
             }
         }
@@ -425,7 +432,7 @@ pub fn deviations(img: &[u8], l: &Layout) -> Vec<Deviation> {
     // 4. DIFAT sector not marked DIFSECT
     for s in &l.difat_sectors {
         if let Some(off) = imgck::fat_cell_offset(l, *s) {
-            for v in [ENDOFCHAIN, FREESECT] {
+            for v in stale.iter().copied() {
                 out.push(dev("difat-sector-not-marked", format!("difat sector {} cell={:#x}", s, v), vec![(off, le32(v))]));
             }
         }
